@@ -81,6 +81,10 @@ claim("C15", "other", "error-discipline analysis over resolved MIR: every error 
       "Error sites are finite and enumerable from MIR although the inputs reaching them are not: ~75 bail! sites and ~100 `?` sites are classified; in a function that knows the current item's line every error must carry it, and `?` is accepted only from callees all of whose exits are attributed (root causes are reported, cascades are not). CodePoint line = iterator index + 1 over lines().enumerate(); .error has no Ok path, .message/.warning push exactly one string with their line and do nothing else; the message list is handed parse -> pass 0 -> 1 -> 2 -> BuildResult by move/clone only. Level 'other': that the *right* line is named when a fault surfaces in a later pass than it was written is not decided.",
       "Named exception: Directive::parse -> parse_file_internal (a nested file's errors carry their own line). Trusted: rustc MIR.", engine="E0+E1+E3")
 
+claim("C16", "other", "site-discipline analysis over callee-resolved dev-profile MIR: every panic-class site (unwrap/expect, Index, overflow/division Assert terminators, explicit panics, RefCell accesses, library calls with panicking preconditions) in code reachable from the API is enumerated and must be discharged by a computed reason (type, abstract-interpretation guard, PEG language inclusion, checked invariant witness, witness-backed counter table); depth guards on every call-graph cycle; loop drivers; capacity comparison before emission",
+      "A panic, runaway recursion, endless loop or unbounded allocation happens at a site, and the sites are finite and enumerable from MIR although the inputs are not: ~160 panic-class sites, 6 call-graph cycles, ~43 loops, 54 RefCell guards, 11 precondition-bearing library calls. Each is decided for all inputs at once: a site is discharged only if the failing side is infeasible under the value sets E1 derives from the guards in front of it (every explored path, loops havocked), or by a type fact, or because the finite language of the grammar capture is contained in the keys from_str accepts, or by a named invariant whose structural witness is re-checked each run. Recursion needs a constant-bounded depth guard that dominates every call back into the cycle; loops need a finite in-memory iterator created outside the loop or a monotone variant; memory proportional to a number written in the source may only be produced after pass 1 compared that number with the device capacity. Level 'other': 'promptly' as wall-clock time and stack depth in bytes are not decided.",
+      "Assumes dependencies do not panic within their documented contracts (the contracts that take arguments are checked), source text fits in memory. Same-typed RefCells are treated as possibly the same cell unless created in the same function.", engine="E0+E1+E2+E3")
+
 ENGINES = [
     {"name": "E0 fact driver", "path": "driver/", "serves_properties": sorted(P), "kind_free_text": "rustc_private driver (RUSTC_WORKSPACE_WRAPPER) dumping callee-resolved MIR, ADT/static/impl tables of /repo's two crates as JSON"},
     {"name": "E1 abstract interpreter", "path": "analysis/absint.py", "serves_properties": ["C01", "C02", "C03", "C04", "C05", "C06", "C08", "C12", "C13"], "kind_free_text": "path-sensitive abstract interpretation of MIR: named unknowns, value sets, bit provenance, linear forms; no solver, no execution of /repo"},
